@@ -198,3 +198,8 @@ def run(F, chk):
             re_.ok(key, b.where(bi), "followed by request_counted=true on every path")
         else:
             re_.violation(key, b.where(bi), "http.active_requests is incremented on a path that never sets request_counted: the matching -1 is skipped and the gauge drifts upward")
+
+
+def run_thorough(F, chk):
+    import witness
+    witness.apply(chk, "R-C16-d-w", "ClusterIpTrackingIsPrivate", "compile_fail witness: SessionManager tracking maps are private across crates")
